@@ -19,7 +19,7 @@ NUM = 4
 RULE = ("rotation cases = (true azimuth psi, deployed angle theta, chain of 1-6 targets; all anywhere in [-720,1080] incl. "
         "multiples of 90; polarised signal + optional orthogonal noise); HVSR cases = random recording x (single azimuth "
         "a vs orient-to-(current+a); a vs a+180; azimuthal vs stack of single azimuths; RotDpp percentiles vs min/max over "
-        "azimuths; azimuthal vs single azimuths for 2-5 recordings with mixed time steps under each dissimilar-time-step policy; rotation-invariant methods for the same ground motion recorded at two deployment angles); non-trivial = "
+        "azimuths; azimuthal vs single azimuths with fft_settings={'n': None}; azimuthal vs single azimuths for 2-5 recordings with mixed time steps under each dissimilar-time-step policy; rotation-invariant methods for the same ground motion recorded at two deployment angles); non-trivial = "
         "a rotation by an angle that is not a multiple of 360 / an azimuth set with >= 2 azimuths; distinct = (psi, theta, "
         "targets) resp. (relation, method, operator, azimuths) signatures")
 ASSUMPTIONS = [
@@ -171,7 +171,9 @@ def fam_azimuthal_stack(ctx, rng):
               maxrel=max(maxrel(x, y) for x, y in zip(az, singles)) if len(az) == len(singles) else None,
               azimuths=cfg["azimuths"], op=cfg["op"])
     # RotDpp against the same azimuths
-    ps = sorted(float(p) for p in np.concatenate([[0.0, 100.0], rng.uniform(0, 100, 3)]))
+    # percentiles from both ends of the scale, including values at and below 1 and just under 100
+    ps = sorted(float(p) for p in np.concatenate([[0.0, 100.0], rng.uniform(0, 100, 3),
+                                                   rng.choice([0.5, 1.0, 2.0, 99.0, 99.5, float(rng.uniform(0, 1))], 2)]))
     try:
         rot = [run(ctx, arrays, dt, dict(cfg, kind="rotdpp", method="rotdpp", percentile=p)) for p in ps]
     except ValueError:
@@ -234,6 +236,51 @@ def fam_azimuthal_stack_many(ctx, rng):
     ctx.state([len(set(dts)), policy])
 
 
+def fam_azimuthal_stack_unpadded(ctx, rng):
+    """fft_settings={'n': None} (no zero padding): the azimuthal result must still be the stack of the single-azimuth
+    results obtained with the same settings.  Diagnostic: is a difference explained by nothing but the FFT length that
+    the azimuthal call reports afterwards?"""
+    import hvsrpy
+    dt = float(rng.choice([0.005, 0.01]))
+    n = int(rng.choice([500, 2000, 6000]))
+    arrays = gen.recording_arrays(rng, n, None, amp=1.0)
+    cfg = nonneg_cfg(rng, dt, n, "azimuthal")
+    cfg["user_n"] = None
+    cfg["fft_n_none"] = True
+    k = int(rng.integers(1, 5))
+    cfg["azimuths"] = np.sort(rng.choice(np.arange(0, 180.5, 2.5), size=k, replace=False))
+    ctx.describe(dt=dt, n=n, **cfg)
+
+    def rec():
+        return gen.make_recording(np.array(arrays[0]), np.array(arrays[1]), np.array(arrays[2]), dt)
+
+    def go(st):
+        ctx.count("process_calls")
+        with np.errstate(all="ignore"):
+            return hvsrpy.process([rec()], st)
+    try:
+        st_az = C01.make_settings(cfg)
+        az = [np.asarray(h.amplitude)[0] for h in go(st_az).hvsrs]
+        n_reported = st_az.fft_settings.get("n")
+        singles, pinned = [], []
+        for a in cfg["azimuths"]:
+            c1 = dict(cfg, kind="single", method="single_azimuth", azimuth=float(a))
+            singles.append(np.asarray(go(C01.make_settings(c1)).amplitude)[0])
+            c2 = dict(c1, fft_n_none=False, user_n=int(n_reported))
+            pinned.append(np.asarray(go(C01.make_settings(c2)).amplitude)[0])
+    except ValueError:
+        ctx.count("process_refused")
+        return
+    ok = all(biteq(x, y) for x, y in zip(az, singles))
+    explained = all(biteq(x, y) for x, y in zip(az, pinned)) and n_reported != n
+    ctx.check(ok, "azimuthal-is-stack-of-single-azimuths",
+              "with fft_settings={'n': None} an azimuth of the azimuthal result differs from the single-azimuth result",
+              mechanism="fft-length-none-resolved-again-per-azimuth", explained_by_fft_length_reported_afterwards=bool(explained),
+              window_samples=n, fft_length_reported_by_azimuthal_settings=n_reported,
+              maxrel=max(maxrel(x, y) for x, y in zip(az, singles)), azimuths=cfg["azimuths"], op=cfg["op"])
+    ctx.nontrivial(["stack-unpadded", k, cfg["op"], n])
+
+
 def fam_invariant(ctx, rng):
     dt = float(rng.choice([0.005, 0.01]))
     n = int(rng.choice([500, 2000, 6000]))
@@ -275,4 +322,5 @@ def fam_invariant(ctx, rng):
 
 FAMILIES = [("rotation-ground-truth", fam_rotation), ("single-azimuth-relations", fam_single_azimuth),
             ("rotation-ground-truth-2", fam_rotation), ("azimuthal-stack-and-rotdpp", fam_azimuthal_stack),
-            ("rotation-invariant-methods", fam_invariant), ("azimuthal-stack-several-recordings", fam_azimuthal_stack_many)]
+            ("rotation-invariant-methods", fam_invariant), ("azimuthal-stack-several-recordings", fam_azimuthal_stack_many),
+            ("azimuthal-stack-unpadded-fft", fam_azimuthal_stack_unpadded)]
